@@ -14,6 +14,7 @@ A property is described by a module tools/props/cXX.py exporting
       coq_header   "Require Import ..." text for the cases file
       coq_type     Coq type of a model input
       coq_input(case) -> Coq term of that type
+      coq_input_r(case, result) -> same, for observations that depend on how far the implementation got
       coq_obs      Coq function  input -> val   (the model's observation)
       canon(result) optional, python-side canonicalisation before rendering
       pinned       True when a theorem pins the model's observation as the only value the
@@ -254,7 +255,8 @@ def run_model(ctx, prop, stream, cases, results):
     canon = stream.get("canon", lambda r: r)
     rows = []
     for c, r in zip(cases, results):
-        rows.append((stream["coq_input"](c), coqfmt.val(r if isinstance(r, Err) else canon(r))))
+        inp = stream["coq_input_r"](c, r) if "coq_input_r" in stream else stream["coq_input"](c)
+        rows.append((inp, coqfmt.val(r if isinstance(r, Err) else canon(r))))
     shard = int(stream.get("shard", 300))
     d = ctx.scratch()
     jobs = []
